@@ -253,6 +253,10 @@ def generate():
         "(* compute_inp_hashes reports an input that is no longer a readable regular file as changed",
         "   (true) or lets the exception fail the whole hash computation: step FAILED, no drain (false) *)",
         "Definition unreadable_input_reported : bool := " + ("true" if unreadable_reported else "false") + ".",
+        "(* ... and the entry of such a path in that case (the new hash is FileHash.unknown(); the message is",
+        "   'Input changed unexpectedly: <path> (<reason>)', kind 2, whatever is_unknown says) *)",
+        "Definition inp_entry_unreadable_gen (differs old_unknown : bool) : bool * N * bool :=",
+        "  if differs then (true, 2, false) else if old_unknown then (false, 0, true) else (false, 0, false).",
         "",
     ]
     facts = {"refreshed_shortcut": fh["pairs"], "eq_fields": fh["eq_fields"], "build": fh["build"]}
